@@ -62,6 +62,14 @@ claim("C22", T + "provenance of coin ids (GetNextCoinID → Create* → SetCoins
       "Decides that every creating handler uses App().GetNextCoinID() as the new id and stores it back on every accepted path, that nothing else creates coins or moves the counter, that tickers are registered only after the uniqueness and allowed-symbol gates, that recreate/re-own/mint are owner-gated, that pool tokens have no ticker owner and MintToken rejects coins without symbol info, and that minting is bounded by mintability and max supply. Not decided: version numbering arithmetic.",
       TRUST, "DESIGN.md §4 C22")
 
+claim("C01", T + "who-may-write on value-holding fields, sibling pairing (order-fill credit loop after every Pair*WithOrders), sibling agreement of the fee block frozen to exact origin signatures, move-not-copy pairing, slash accounting pairing, carry rule on validator rebuild",
+      "Whole-history conservation is arithmetic and is not decided. Decides the pairing skeleton: holding fields are written only in their module; all 42 order-filling swaps credit the filled orders' owners in the coin sold into the pool on every path; the fee block of each of the 37 live Runs matches a confirmed signature of amount sources; frozen funds are moved, not copied; slashed amounts reach total-slashed / burn volume+reserve; accumulated rewards survive a validator rebuild (known finding: lost on public-key change, reproduced).",
+      TRUST + "Amounts inside module mutators are not examined.", "DESIGN.md §4 C01")
+
+claim("C02", T + "path-sensitive coverage: enumeration of all acyclic CFG paths to every balance debit with branch facts, phi resolution along the path and infeasible-path pruning; recognised sufficiency-gate normal forms; gate rules for volume/reserve mutations",
+      "Decides that every SubBalance in a live deliver block is covered on every path by a sufficiency gate on the same account and coin (equal syntactically, by alias, or by an equality fact on that path) whose amount contains the debited value (or a pool-module charge bounded by it, or exactly the balance read), with the Multisend helper and the route's last-iteration debit as named idioms; every AddVolume lies behind a max-supply gate and every bancor SubReserve behind a reserve-underflow gate on every feasible path. Not decided: stakes, frozen funds, pool reserves, order volumes; numeric sufficiency when deliver recomputes a trade.",
+      TRUST + "Assumes a pool-module mutator never charges more than the maximum amount it is given.", "DESIGN.md §4 C02")
+
 PENDING = "check not built yet in this round; see DESIGN.md §4 for the planned static rule"
 for p in ["C%02d" % i for i in range(1, 30)]:
     if p not in CLAIMS and p != "C12":
